@@ -1,6 +1,6 @@
 #!/bin/bash
 # tools/retrial.sh <seed> <check> : re-run a check against a seeded change and record the outcome
-s=$1; c=$2; cd /verif
+s=$1; c=$2; cd "$(dirname "$0")/.."
 out=$(tools/trymut_wt.sh seeded/$s/patch.diff $c 2>&1 | grep -v conda)
 if echo "$out" | grep -q "no-failing-input-found"; then r="caught: VIOLATION no-failing-input-found ($(echo "$out" | grep 'broken:' | head -1 | cut -c1-160))";
 elif echo "$out" | grep -q "^VIOLATION"; then r="caught: VIOLATION with a concrete failing input ($(echo "$out" | grep 'replay:' | head -1 | cut -c1-200))";
